@@ -277,6 +277,13 @@ func (g *hGen) extOffer() []string {
 		"PERMESSAGE-DEFLATE",
 		"permessage-deflate; x=\"unterminated",
 		"foo; bar=\"a\\\"b\"; baz, permessage-deflate",
+		// permessage-deflate appears only inside quoted parameter values
+		"foo; bar=\"a\\\\\"; baz=\", permessage-deflate, y=\"",
+		"foo; bar=\", permessage-deflate, \"",
+		"foo; bar=\"x\\\", permessage-deflate\"",
+		// optional white space around separators and parameter names
+		"permessage-deflate ; server_no_context_takeover ; client_no_context_takeover",
+		"foo ,\tpermessage-deflate\t;\tclient_max_window_bits = 10",
 		";permessage-deflate",
 		"foo bar, permessage-deflate",
 		"permessage-deflate;",
@@ -541,7 +548,9 @@ func originFor(g *hGen, host string, bad bool) string {
 			h = host + "ſ"
 		}
 	case 9:
-		return g.pick("null", "://bad", "http://[::1", "%zz", "http://a b/", "")
+		return g.pick("null", "://bad", "http://[::1", "%zz", "http://a b/", "",
+			// foreign or unparsable origins whose tail spells "://<host>"
+			"https://evil.example/x://"+host, "https://evil.example:port/://"+host, "://"+host, "x://evil.example/?://"+host, "https://evil.example#://"+host)
 	case 10:
 		h = host + "\xff"
 	default:
@@ -593,8 +602,15 @@ func serverOriginOK(u *websocket.Upgrader, hasOrigin bool, origin, host string) 
 	}
 	// independent authority extraction (RFC 3986): scheme "://" [userinfo "@"] host [":" port] until / ? #
 	i := strings.Index(origin, "://")
-	if i < 0 {
+	if i <= 0 {
 		return false
+	}
+	for k := 0; k < i; k++ { // scheme = ALPHA *( ALPHA / DIGIT / "+" / "-" / "." )
+		c := origin[k]
+		alpha := c >= 'a' && c <= 'z' || c >= 'A' && c <= 'Z'
+		if !(alpha || k > 0 && (c >= '0' && c <= '9' || c == '+' || c == '-' || c == '.')) {
+			return false
+		}
 	}
 	auth := origin[i+3:]
 	if j := strings.IndexAny(auth, "/?#"); j >= 0 {
@@ -713,8 +729,9 @@ func serverAcceptOracle(sc *scenario, t *TConn, c *websocket.Conn, hdr http.Head
 	if nego {
 		offered := false
 		for _, l := range hdr["Sec-Websocket-Extensions"] {
-			for _, e := range strings.Split(l, ",") {
-				name := owsTrim(strings.SplitN(e, ";", 2)[0])
+			// RFC 7230 list grammar: commas / semicolons inside a quoted-string (with backslash escapes) do not separate
+			for _, e := range splitOutsideQuotes(l, ',') {
+				name := owsTrim(splitOutsideQuotes(e, ';')[0])
 				if name == "permessage-deflate" {
 					offered = true
 				}
@@ -1074,9 +1091,11 @@ func runClientScenario(seed int64) *scenario {
 	case 0:
 		rs.status = g.pick("200 OK", "400 Bad Request", "302 Found", "101", "100 Continue", "403 Forbidden", "500 x")
 	case 1:
-		rs.upgrade = [][]string{nil, {"h2c"}, {"websockets"}, {"h2c, WebSocket"}, {"foo", "websocket"}, {"web socket"}}[r.Intn(6)]
+		rs.upgrade = [][]string{nil, {"h2c"}, {"websockets"}, {"h2c, WebSocket"}, {"foo", "websocket"}, {"web socket"},
+			{"\u00a0websocket"}, {"websocket\u3000"}, {"h2c,\u0085websocket"}, {"\u2003websocket\u2003"}}[r.Intn(10)]
 	case 2:
-		rs.connection = [][]string{nil, {"keep-alive"}, {"keep-alive, Upgrade"}, {"upgrades"}, {"close", "upgrade"}, {"xupgrade"}}[r.Intn(6)]
+		rs.connection = [][]string{nil, {"keep-alive"}, {"keep-alive, Upgrade"}, {"upgrades"}, {"close", "upgrade"}, {"xupgrade"},
+			{"keep-alive,\u00a0Upgrade"}, {"\u3000upgrade"}, {"upgrade\u00a0"}}[r.Intn(9)]
 	case 3:
 		rs.accept = g.pick("wrong", "stale", "otherkey", "missing", "trunc", "lower", "upper", "swap", "pad", "twice")
 	case 4:
@@ -1095,7 +1114,9 @@ func runClientScenario(seed int64) *scenario {
 	case 1:
 		rs.ext = []string{g.pick("permessage-deflate", "permessage-deflate; server_no_context_takeover", "permessage-deflate; client_no_context_takeover",
 			"foo, permessage-deflate; client_no_context_takeover; server_no_context_takeover", "permessage-deflate; client_no_context_takeover; server_no_context_takeover; client_max_window_bits=10",
-			"x-other", "permessage-deflate; server_no_context_takeover, permessage-deflate; server_no_context_takeover; client_no_context_takeover")}
+			"x-other", "permessage-deflate; server_no_context_takeover, permessage-deflate; server_no_context_takeover; client_no_context_takeover",
+			"permessage-deflate; server_no_context_takeover ; client_no_context_takeover", "permessage-deflate ;server_no_context_takeover\t;\tclient_no_context_takeover ",
+			"permessage-deflate; client_no_context_takeover ; server_no_context_takeover , x-other", "permessage-deflate; server_no_context_takeover; client_no_context_takeover; server_max_window_bits = 15")}
 	}
 	if r.Intn(4) == 0 {
 		rs.proto = []string{g.pick("chat", "superchat", "nope")}
@@ -1431,12 +1452,22 @@ func clientReplyOracle(sc *scenario, c *websocket.Conn, resp *http.Response, err
 		if c != nil {
 			cw, cr := websocket.VerifNegotiated(c)
 			both, quoted := false, false
+			firstSeen, firstBoth, wellFormed := false, false, true
 			for _, l := range pr.Header["Sec-Websocket-Extensions"] {
 				if strings.Contains(l, "\"") {
 					quoted = true
 				}
 				for _, e := range strings.Split(l, ",") {
 					parts := strings.Split(e, ";")
+					if !isTok(owsTrim(parts[0])) {
+						wellFormed = false
+					}
+					for _, p := range parts[1:] {
+						kv := strings.SplitN(p, "=", 2)
+						if !isTok(owsTrim(kv[0])) || (len(kv) == 2 && !isTok(owsTrim(kv[1]))) {
+							wellFormed = false
+						}
+					}
 					if owsTrim(parts[0]) != "permessage-deflate" {
 						continue
 					}
@@ -1444,10 +1475,19 @@ func clientReplyOracle(sc *scenario, c *websocket.Conn, resp *http.Response, err
 					for _, p := range parts[1:] {
 						names[owsTrim(strings.SplitN(p, "=", 2)[0])] = true
 					}
-					if names["server_no_context_takeover"] && names["client_no_context_takeover"] {
+					b := names["server_no_context_takeover"] && names["client_no_context_takeover"]
+					if b {
 						both = true
 					}
+					if !firstSeen {
+						firstSeen, firstBoth = true, b
+					}
 				}
+			}
+			// … and it IS in use when the 101 (a well-formed extension list, optional white space around
+			// separators allowed) announces it with both parameters: the server compresses from then on
+			if wellFormed && !quoted && firstBoth && !(cw && cr) {
+				sc.violate("the 101 announces permessage-deflate with both no_context_takeover parameters (%q) and Dial succeeded, but the client does not use compression: the endpoints disagree", pr.Header["Sec-Websocket-Extensions"])
 			}
 			if cw != cr {
 				sc.violate("client compresses=%v but accepts compressed=%v", cw, cr)
@@ -1529,4 +1569,25 @@ func splitAuthority(a string) (bare, port string, ok bool) {
 		}
 	}
 	return "", "", false
+}
+
+// splitOutsideQuotes splits s at sep, except inside a quoted-string ("…" with backslash escapes).
+func splitOutsideQuotes(s string, sep byte) []string {
+	var out []string
+	start, inQ, esc := 0, false, false
+	for i := 0; i < len(s); i++ {
+		c := s[i]
+		switch {
+		case esc:
+			esc = false
+		case inQ && c == '\\':
+			esc = true
+		case c == '"':
+			inQ = !inQ
+		case c == sep && !inQ:
+			out = append(out, s[start:i])
+			start = i + 1
+		}
+	}
+	return append(out, s[start:])
 }
